@@ -333,6 +333,16 @@ func Step(in *Inst, model *m.DB, o m.Op) (*Result, *m.DB, []Finding) {
 	}
 	for _, oc := range outs {
 		if ClassMatches(oc.Err, res.Class) {
+			if o.K == "insertOne" && res.Err == nil {
+				// the returned id must be the _id under which the document is now stored
+				want, _ := o.Docs[0]["_id"].(string)
+				if want == "" && len(res.GenIDs) > 0 {
+					want = res.GenIDs[0]
+				}
+				if len(res.Names) != 1 || res.Names[0] != want || oc.State.Colls[o.Coll].Docs[want] == nil {
+					out = append(out, fnd("id", "InsertOne returned id %q, the document is stored under %q", res.Names, want))
+				}
+			}
 			return res, oc.State, out
 		}
 	}
